@@ -732,6 +732,13 @@ fn alias_of(rng: &mut Rng, p: &str) -> String {
 
 fn gen_op(rng: &mut Rng) -> Op {
     let op = gen_op_raw(rng);
+    // the same file named twice, once through an alias (`dir/..`, `.`, `//`)
+    let op = match &op {
+        Op::Cp(a, _) if rng.chance(1, 12) => Op::Cp(a.clone(), alias_of(rng, a)),
+        Op::Cp(_, b) if rng.chance(1, 12) => Op::Cp(alias_of(rng, b), b.clone()),
+        Op::Mv(a, _) if rng.chance(1, 12) => Op::Mv(alias_of(rng, a), a.clone()),
+        _ => op,
+    };
     let op = if rng.chance(1, 10) {
         let ps = paths_of(&op);
         if ps.is_empty() {
